@@ -314,3 +314,93 @@ def section_pipeline(rep, rng, tier, n=None, oracle_fn=None, name='pipeline'):
              'real TracesParser.feed_generator: per trace (handler name, ktraces, str() or exception kind, composite payload), '
              'the aborting exception and the four context tables',
         sample_fn=lambda c: {'events': len(c['events']), 'codes': sorted(c['codes'].values())})
+
+
+# ---------------------------------------------------------------------------------------------------------
+# "matching START / END" search (C09, C10): streams with unterminated, repeated and nested syscalls
+
+MATCH_DECODERS = ['BSC_read', 'BSC_pread', 'BSC_lseek', 'BSC_kill', 'BSC_mmap', 'BSC_workq_kernreturn', 'BSC_sys_fcntl',
+                  'MSC_mach_vm_allocate_trap', 'BSC_getpid', 'BSC_ioctl', 'BSC_write', 'BSC_sendto']
+
+
+def matching_search(rep, rng, tier, prop, decoders=None):
+    """Every emitted syscall trace must be rendered from the most recent START of its thread and code that is
+    still open, and from the END that closed it; nothing else in the stream may influence it."""
+    sec = rep.section('matching-records')
+    sec['rule'] = ('failing-input search on the real pipeline: 2-3 threads, syscalls whose START never ends, is repeated, or '
+                   'encloses other records (interrupt-like singles, other syscalls), every START/END with its own words; each '
+                   'trace text must equal the isolated rendering of its matching (START, END) pair')
+    n = 150 if tier == 'quick' else 4000
+    names = decoders or MATCH_DECODERS
+    for _ in range(n):
+        s = Stream(rng)
+        tids = [11, 12, 13][:rng.choice([1, 1, 2, 3])]
+        log = []          # (kind, name, tid, words)
+        stream_names = [rng.choice(names) for _ in range(rng.choice([1, 2, 2, 3]))]   # few keys: collisions are the point
+        for _ in range(rng.randrange(3, 12)):
+            tid = rng.choice(tids)
+            name = rng.choice(stream_names)
+            base = good_args(name) or [1, 2, 3, 4]
+            k = rng.random()
+            if k < 0.45:
+                a = [base[0], base[1], base[2], base[3]]
+                a[rng.randrange(4)] = base[rng.randrange(4)] if name == 'BSC_sys_fcntl' else a[0]
+                a = list(base)
+                for i in range(4):
+                    if name not in ('BSC_sys_fcntl', 'BSC_ioctl') or i != 1:
+                        a[i] = base[i] + rng.randrange(0, 50)
+                s.ev(name, START, tid, a)
+                log.append(('S', name, tid, a))
+            elif k < 0.8:
+                e = [rng.choice([0, 0, 0, 2, 9, 35, 1000]), rng.randrange(0, 5000), rng.randrange(0, 50), 77]
+                s.ev(name, END, tid, e)
+                log.append(('E', name, tid, e))
+            else:
+                w = [0, rng.randrange(1 << 40), rng.randrange(2), 1]
+                s.ev('MACH_SCHED', NONE, tid, w)
+                log.append(('N', 'MACH_SCHED', tid, w))
+        case = make_case_from(s.recs)
+        outs, err, parser = run_traces(case)
+        sec['cases'] += 1
+        # expected: declarative matching
+        expected = []
+        for i, (kind, name, tid, words) in enumerate(log):
+            if kind == 'N':
+                expected.append(None)
+                continue
+            if kind != 'E':
+                continue
+            j = None
+            for m in range(i - 1, -1, -1):
+                if log[m][1] == name and log[m][2] == tid and log[m][0] in 'SE':
+                    j = m if log[m][0] == 'S' else None
+                    break
+            if j is None:
+                continue
+            c = {'name': name, 'start': log[j][3], 'end': words, 'tid': tid, 'lookups': [], 'gs': {}, 'tp': {}, 'tn': {}}
+            try:
+                expected.append(D.text_of(D.impl_fn(c)))
+            except Exception as e:
+                expected.append('!' + core.err_name(e))
+        def part(t):
+            # C09 looks at the call part only, C10 at the result part only
+            sp = D.split_call(t) if not t.startswith('!') else None
+            if sp is None:
+                return t
+            return t[:len(t) - len(sp[2])] if prop == 'C09' else sp[2]
+        got = [part(hs_decode(o['text'])) for o in outs if o['name'] != 'MACH_SCHED']
+        exp = [part(e) for e in expected if e is not None]
+        if got != exp or err != '-':
+            sec['mismatches'] = sec.get('mismatches', 0)
+            rep.add_failure('matching:%s' % prop,
+                            'stream %s: traces %r, expected from the matching START/END pairs %r (exception: %s)'
+                            % ([(k, nm, t) for k, nm, t, _ in log], got, exp, err),
+                            {'section': 'matching-records', 'case': case, 'log': log})
+        else:
+            sec['distinct_nontrivial'] += 1 if exp else 0
+
+
+def hs_decode(txt):
+    if txt.startswith('!'):
+        return txt
+    return '' if txt == '-' else bytes.fromhex(txt).decode('utf-8', 'surrogatepass')
